@@ -6,6 +6,7 @@ handlers).  Helper lemmas are in `Proofs/Config.lean`.  All quantifiers are unbo
 directories, any target, any free-disk figures.
 -/
 import MassVerif.Proofs.Config
+import MassVerif.Proofs.ConfigStable
 
 namespace MassVerif.Config
 
@@ -550,6 +551,82 @@ theorem C15_restart_finds_selection (k : K) (tu : Nat) (dirs : List Nat)
     · exact Or.inl (hinv w (h3 w hw).1)
     · exact Or.inr hw
   exact restart_indexes _ dirs hfiles hd
+
+/-- **The same request finds the same selection again and creates nothing** — on the keeper as the first request
+left it, and hence (with `restart_indexes`: a restarted keeper indexes every space file of its directories) after a
+restart: the fill pass over the index extended by the spaces the first request created takes exactly what the first
+request selected and created, which already meets the target. -/
+theorem C15_reconfigure_stable (k : K) (tu : Nat) (h : (k.configureBySize tu).2.err = none) :
+    ((k.configureBySize tu).1.configureBySize tu).2.err = none ∧
+    ((k.configureBySize tu).1.configureBySize tu).2.created = [] ∧
+    ∀ w, w ∈ ((k.configureBySize tu).1.configureBySize tu).2.selected ↔ w ∈ (k.configureBySize tu).2.selected := by
+  obtain ⟨k1, sel, new, hreq, hsel, hnew, hne, hmin, hk'⟩ := configureBySize_ok h
+  have hnn := configureBySize_target_nonneg h
+  obtain ⟨h1, h2, h3, h4, h5, _, _⟩ := sizeRequest_ok hreq hnn
+  -- the first request's fill pass
+  have hfirst : sel = (fill (candidates k.index) 0 (toInt64 tu)).1 ∨ True := Or.inr trivial
+  have hfilt : ∀ l : List WS, l.filter (fun _ => true) = l := fun l => List.filter_eq_self.2 (fun _ _ => rfl)
+  -- what `sel` is: the fill pass over the old index
+  have hselfill : sel = (fill (candidates k.index) 0 (toInt64 tu)).1 := by
+    have hr := hreq
+    unfold K.sizeRequest at hr
+    simp only [hfilt] at hr
+    split at hr
+    · simp only [Prod.mk.injEq, Except.ok.injEq] at hr; exact hr.2.1.symm
+    · split at hr
+      · simp at hr
+      · split at hr
+        · simp at hr
+        · simp only [Prod.mk.injEq, Except.ok.injEq] at hr; exact hr.2.1.symm
+  have hcur := fill_cur (candidates k.index) 0 (toInt64 tu)
+  have hnewbl : ∀ w ∈ new, w.bl ∈ blDesc := fun w hw => (h4 w hw).2.2.1
+  have htot := total_candidates new hnewbl
+  have hint := candidates_append_interleave k.index new
+  have hfi := fill_interleave hint 0 0 (toInt64 tu) (Int.le_refl 0) (by rw [htot, hcur, ← hselfill]; omega)
+  simp only [Int.add_zero] at hfi
+  -- the keeper after the first request
+  have hidx : (k.configureBySize tu).1.index = k.index ++ new := by rw [hk', h5]; rfl
+  have hdir : (k.configureBySize tu).1.dir0 = k.dir0 := by rw [hk', h5]; rfl
+  -- the second request's size request is met by the indexed spaces alone
+  have hfin : fillFinished (fill (candidates (k.index ++ new)) 0 (toInt64 tu)).2 (toInt64 tu) = true := by
+    unfold fillFinished
+    rw [hfi.1, htot, hcur, ← hselfill]
+    have := minSize_pos
+    simp only [Bool.or_eq_true, beq_iff_eq, decide_eq_true_eq]
+    right; omega
+  have hreq2 : (k.configureBySize tu).1.sizeRequest (fun _ => true) (k.configureBySize tu).1.dir0 (toInt64 tu) =
+      ((k.configureBySize tu).1, .ok ((fill (candidates (k.index ++ new)) 0 (toInt64 tu)).1, [])) := by
+    unfold K.sizeRequest
+    simp only [hfilt, hidx, hfin, if_true]
+  have hmem : ∀ z, z ∈ (fill (candidates (k.index ++ new)) 0 (toInt64 tu)).1 ↔ z ∈ sel ++ new := by
+    intro z
+    rw [hfi.2 z, ← hselfill, List.mem_append]
+    constructor
+    · rintro (hz | hz)
+      · exact Or.inl hz
+      · exact Or.inr (mem_candidates.1 hz).1
+    · rintro (hz | hz)
+      · exact Or.inl hz
+      · exact Or.inr (mem_candidates.2 ⟨hz, hnewbl z hz⟩)
+  have hne2 : ¬ ((fill (candidates (k.index ++ new)) 0 (toInt64 tu)).1 ++ ([] : List WS)).isEmpty = true := by
+    intro hemp
+    have hnil : (fill (candidates (k.index ++ new)) 0 (toInt64 tu)).1 = [] := by simpa using hemp
+    cases hsn : sel ++ new with
+    | nil => exact hne hsn
+    | cons z r =>
+      have := (hmem z).2 (by rw [hsn]; simp)
+      rw [hnil] at this; cases this
+  have hres : (k.configureBySize tu).1.configureBySize tu =
+      ((k.configureBySize tu).1.apply ((fill (candidates (k.index ++ new)) 0 (toInt64 tu)).1 ++ []) []) := by
+    conv => lhs; unfold K.configureBySize
+    rw [if_neg hmin, hreq2]
+  rw [hres]
+  unfold K.apply
+  rw [if_neg hne2]
+  refine ⟨rfl, rfl, ?_⟩
+  intro w
+  simp only [List.append_nil]
+  rw [hmem w, hsel]
 
 /-! ### the premises are satisfiable (concrete scenarios, evaluated by the kernel) -/
 
